@@ -177,10 +177,11 @@ def loadRows {α : Type} (float : String → Except Err α) (undefinedValue : Op
       | .error e => .error e
       | .ok out => .ok (match r with | some entry => entry :: out | none => out)
 
-/-- `if dataList[0][0] == "time": dataList = dataList[1:]` -/
+/-- `if len(dataList) > 0 and dataList[0][0] == "time": dataList = dataList[1:]` (an empty listing passes
+through; `dataList[0][0]` on a first row without fields cannot happen, `split` gives ≥ 1 field) -/
 def dropHeader (dataList : List (List String)) : Except Err (List (List String)) :=
   match dataList with
-  | [] => .error .IndexError
+  | [] => .ok []
   | [] :: _ => .error .IndexError
   | (h :: hs) :: rest => .ok (if h == "time" then rest else (h :: hs) :: rest)
 
@@ -201,19 +202,19 @@ structure PitchArith (α : Type) where
   sqrt : α → α
 
 /-- the list the aggregates are applied to: median filtering (edge padding on) first, then zero removal
-(`int(f0Val) != 0`, a parameter) -/
-def pitchValues {α : Type} [Inhabited α] [LE α] [DecidableLE α] (intIsZero : α → Bool) (f0Values : List α)
+(`f0Val != 0`) -/
+def pitchValues {α : Type} [Inhabited α] [LE α] [DecidableLE α] [BEq α] [Tm α] (f0Values : List α)
     (medianFilterWindowSize : Option Nat) (filterZeroFlag : Bool) : List α :=
   let f0Values := match medianFilterWindowSize with
     | some w => medianFilter f0Values w true
     | none => f0Values
-  if filterZeroFlag then f0Values.filter (fun v => !intIsZero v) else f0Values
+  if filterZeroFlag then f0Values.filter (fun f0Val => !(f0Val == Tm.zero)) else f0Values
 
 /-- `(meanF0, maxF0, minF0, rangeF0, variance, std)` -/
-def getPitchMeasures {α : Type} [Inhabited α] [LT α] [DecidableLT α] [LE α] [DecidableLE α] [Sub α] [Tm α]
-    (A : PitchArith α) (intIsZero : α → Bool) (f0Values : List α) (medianFilterWindowSize : Option Nat)
+def getPitchMeasures {α : Type} [Inhabited α] [LT α] [DecidableLT α] [LE α] [DecidableLE α] [BEq α] [Sub α] [Tm α]
+    (A : PitchArith α) (f0Values : List α) (medianFilterWindowSize : Option Nat)
     (filterZeroFlag : Bool) : α × α × α × α × α × α :=
-  let f0Values := pitchValues intIsZero f0Values medianFilterWindowSize filterZeroFlag
+  let f0Values := pitchValues f0Values medianFilterWindowSize filterZeroFlag
   if f0Values.length == 0 then
     (Tm.zero, Tm.zero, Tm.zero, Tm.zero, Tm.zero, Tm.zero)
   else
